@@ -74,6 +74,13 @@ fn ilv_programs() -> Vec<Program> {
         vec![Op::Upsert { k: 2, value: true, w: Some(3), ttl_ms: None, remove_ttl: false }],
         vec![Op::MultiRead { keys: vec![1, 2], variant: ReadVariant::MultiGet }],
     ]));
+    // the two writers of the total weight: the worker (weight update / delete / evicting put) and the sweeper
+    v.push(mk("upsert(a,w=5) || {tick} sweeping b", 100, vec![put(1, 2), put_ttl(2, 3, 1000), adv(3000)], vec![
+        vec![Op::Upsert { k: 1, value: true, w: Some(5), ttl_ms: None, remove_ttl: false }],
+        vec![Op::Tick],
+    ]));
+    v.push(mk("delete(a);put(c) || {tick} sweeping b", 100, vec![put(1, 2), put_ttl(2, 3, 1000), adv(3000)], vec![vec![del(1), put(3, 4)], vec![Op::Tick]]));
+    v.push(mk("evicting-put(c) || {tick} sweeping b", 6, vec![put(1, 2), put_ttl(2, 3, 1000), adv(3000)], vec![vec![put(3, 5)], vec![Op::Tick]]));
     v
 }
 
